@@ -9,7 +9,8 @@ ASSUME = [
     'the compiled engine (cythonbiogeme, C++) is external: its operator semantics are modelled by evalX '
     '(rocq/Model/EvalX.v) and tied by differential runs only',
     'IEEE rounding inside the engine / numpy is covered by the relative tolerance 2^-30 of the membership test, not modelled',
-    'normal CDF: no interval extension yet; cases through bioNormalCdf are counted as undecided',
+    'normal CDF: the interval extension PhiI_series (rocq/Model/PhiI.v: Taylor series with geometric tail bound) is TRUSTED to enclose Phi '
+    '(hypothesis PhiI_correct of the soundness theorem; cross-checked against scipy on a grid), not proved',
 ]
 
 
@@ -142,6 +143,41 @@ def stream_sig(ctx):
     run_sig_streams(ctx, st_sig, st_ids, ctx.n(150, 3000), ctx.n(20, 300))
 
 
+def stream_phi_grid(ctx):
+    st = ctx.stream('phi_grid', 'dyadic grid on [-9, 9]: scipy norm.cdf and the engine\'s bioNormalCdf vs the interval extension '
+                    'PhiI_series (cross-check of a TRUSTED component); non-trivial = |x| > 1/8; distinct by x')
+    rng = ctx.sub_rng('phi')
+    xs = [[m, -3] for m in range(-72, 73, 3)] + [[rng.randint(-4000, 4000), -9] for _ in range(ctx.n(40, 400))]
+    ref = ctx.impl('c01_phi.py', {'xs': xs})
+    trees = [{'tree': {'h': ['Un', 'NormalCdf'], 'k': [{'h': ['Num'] + norm_dy(x), 'k': []}]}, 'betas': {}, 'rows': []} for x in xs]
+    eng = ctx.impl_cases('c01_values.py', trees, {'python': False})
+    vc, meta = [], []
+    for x, t, y, e in zip(xs, trees, ref, eng):
+        vc.append({'expr': t['tree'], 'env': {}, 'observed': y})
+        meta.append(('scipy', x))
+        if 'engine' in e:
+            vc.append({'expr': t['tree'], 'env': {}, 'observed': e['engine'][0]})
+            meta.append(('engine', x))
+    for (who, x), (v, info) in zip(meta, check_values(ctx, 'phi', vc, relbits=-30)):
+        st.record({'x': x, 'who': who}, nontrivial=abs(x[0]) * 2.0 ** x[1] > 0.125)
+        if v == 'differ':
+            st.disagree({'x': x, 'who': who}, info, None)
+            if who == 'engine':
+                ctx.violation('C01/value/engine/NormalCdf', 'bioNormalCdf is outside the enclosure of Phi', {'x': x}, info, None)
+    if any(d['case']['who'] == 'scipy' for d in st.disagreements):
+        ctx.stream_broken('phi_grid', 'the trusted interval extension of Phi disagrees with scipy: ' + str(st.disagreements[0])[:300])
+
+
+def norm_dy(x):
+    m, e = x
+    if m == 0:
+        return [0, 0]
+    while m % 2 == 0:
+        m //= 2
+        e += 1
+    return [m, e]
+
+
 def stream_stale(ctx):
     st = ctx.stream('stale_exception', 'history of two evaluations in ONE process: a formula outside the domain (absent key), then 1+2; '
                     'non-trivial = the first evaluation failed')
@@ -164,6 +200,7 @@ def run(ctx):
     stream_values(ctx)
     stream_sig(ctx)
     stream_stale(ctx)
+    stream_phi_grid(ctx)
 
 
 def replay(ctx, path):
